@@ -101,6 +101,12 @@ def skeleton(eng, name, P):
         b1 = [('BF', T2, {'mode': 'ok'}, []), ('BF', T1, {'mode': 'ok'}, []), q_hole(eng, '0', kinds, [P1, TS])]
         b2 = ([('BF', T1, {'mode': 'ok'}, [])] if keep else []) + [q_hole(eng, '0', kinds, [P1, TS])]
         return [b1, b2]
+    if name == 'A12':
+        # an output (possibly at a foreign file's position) is built first; then a build_file whose target name the OS
+        # refuses - an embedded NUL byte (ValueError from every os call) or 256 characters (OSError) - fails, caught or not
+        t = pick(eng, 't', targets)
+        bad = pick(eng, 'bad', P.get('bad_names', ['o/d/n\0x', 'o/d/' + 'T' * 256]))
+        return [[('BF', t, {'mode': 'ok'}, []), ('BF', bad, bf_opts(eng, '1', ['ok']), []), q_hole(eng, '0', kinds, [P1, TS])]]
     if name == 'A9':
         # a build_file function that asks about its own output directory and then reads an input; afterwards the root asks
         # about the directory (the interesting histories change the input, so the replay of the record stops half-way)
